@@ -40,18 +40,19 @@ json.dump(meta, open(d + '/meta.json', 'w'), indent=1)
 PY
 fi
 # optional behaviour-preserving refactoring written by the same agent: keep it as an equivalent (checks must stay silent)
-if [ -f "$SRC/refactor.diff" ] && [ -s "$SRC/refactor.diff" ]; then
+for RF in refactor refactor2; do
+if [ -f "$SRC/$RF.diff" ] && [ -s "$SRC/$RF.diff" ]; then
   git checkout -q -- src; 
-  if git apply "$SRC/refactor.diff"; then
+  if git apply "$SRC/$RF.diff"; then
     cargo test --offline --lib >"$W/rsuite.log" 2>&1; RS=$?
     cargo test --offline --test seed_demo >"$W/rdemo.log" 2>&1; RD=$?
     ROK=0
     if [ $RD -eq 0 ] && { [ $RS -eq 0 ] || ! grep -q "FAILED" <(grep -v "t::tests::test_moments" "$W/rsuite.log" | grep "^test .* FAILED" | grep -v "^test result"); }; then ROK=1; fi
-    echo "refactor: suite=$RS demo=$RD confirmed=$ROK"
+    echo "$RF: suite=$RS demo=$RD confirmed=$ROK"
     if [ $ROK -eq 1 ]; then
       E=/verif/equivalents/$ID; mkdir -p "$E"
-      cp "$SRC/refactor.diff" "$E/$NAME-refactor.diff"
-      python3 - "$ID" "$E/$NAME-refactor" <<'PY'
+      cp "$SRC/$RF.diff" "$E/$NAME-$RF.diff"
+      python3 - "$ID" "$E/$NAME-$RF" <<'PY'
 import json, sys
 pid, base = sys.argv[1], sys.argv[2]
 json.dump({'property': [pid], 'equivalent': True, 'patch': base.split('/')[-1] + '.diff',
@@ -60,8 +61,9 @@ json.dump({'property': [pid], 'equivalent': True, 'patch': base.split('/')[-1] +
 PY
     fi
   else
-    echo "refactor: PATCH DOES NOT APPLY"
+    echo "$RF: PATCH DOES NOT APPLY"
   fi
 fi
+done
 cd /; git -C /repo worktree remove --force "$W/wt"; rm -rf "$W"
 exit $((1-OK))
